@@ -1345,7 +1345,7 @@ int main(int argc, char **argv) {
         return 3;
     }
     vh_sandbox_init();
-    size_t maxn = M13 ? (vh_thorough ? 4097 : 385) : (vh_thorough ? CORPUS_MAXN : 20000);
+    size_t maxn = M13 ? (vh_thorough ? 4097 : 385) : CORPUS_MAXN;
     const char *e = getenv("VERIF_MAXN");
     if (e) {
         maxn = (size_t)atol(e);
